@@ -48,7 +48,8 @@ def custom(ctx):
                                      "exported program without typedefs and empty namespace blocks) predicts which entity every "
                                      "use refers to in the first generation and in the text the compiler emits for that text, "
                                      "`g2:reject` when an emitted path finds nothing, `g1:reject` for a source path that finds "
-                                     "nothing, the end_enum panic; compared with what the two real texts say (ids carried as "
+                                     "nothing and for an enum value named like a namespace of its scope (register_enum_value, "
+                                     "fix fe5dd8d); compared with what the two real texts say (ids carried as "
                                      "constants); when an emitted path finds an entity of another kind the model abstains "
                                      "(`unsupported`: the type checker decides). C04.fix (whole-program byte fixpoint and "
                                      "slots) has no model side, it is the property's own oracle (the model answers `unsupported`)")
@@ -243,8 +244,6 @@ def _names_class(detail):
         by = {"fn": "namespace-level-entity", "var": "namespace-level-entity", "struct": "namespace-level-entity",
               "enum": "namespace-level-entity", "enumval": "enum-value", "local": "local"}.get(m.group(2), m.group(2))
         return "names:relative-path-captured/%s:by-%s" % (m.group(1), by)
-    if "[names: enum value named like a namespace of its scope]" in (detail or ""):
-        return "names:panic/enum-value-named-like-a-namespace-of-its-scope"
     return None
 
 
@@ -344,6 +343,7 @@ SPEC = {
         "emitted_path_resolves_of_no_closer_match", "emitted_path_resolves_to_same_entity",
         "pathsResolveBack_of_no_closer_match", "machine_tables_wf", "mutant_discipline_loses_emitted_path",
         "emitted_path_captured_witness", "namesAgree_of_pathsResolveBack", "fixpoint_expr_paths",
+        "enum_value_named_like_namespace_refused", "enum_value_named_like_namespace_refused_step",
         # the kind of a template value argument through export and re-compilation (Model.FixpointTemplate)
         "template_const_as_modelled", "emitted_literal_kind_stable", "template_instance_reelab",
         "template_instance_reelab_stmt", "emitted_literal_kind_int32_witness", "mutant_discipline_loses_literal_kind",
@@ -368,7 +368,9 @@ SPEC = {
             "bind-group attributes, arrays, function template, namespace, overloads, default / out / inout parameters, every "
             "statement form, casts, swizzles, intrinsics) + resource/pipeline programs + the literal stream (numeric literals of "
             "every suffix: 20-30 digit decimals, shortest 15-17 digit doubles, over-long expansions, exponent forms, subnormal / huge "
-            "magnitudes, -0.0, integer limits, hex; as global / local initialisers, call arguments, operands and array sizes) + the "
+            "magnitudes, -0.0, integer limits, hex, floats / halves written with the 15-17 digits of their value as a double and "
+            "the float whose shortest digits are read back as its neighbour (fix 265a080); as global / local initialisers, call "
+            "arguments, operands and array sizes) + the "
             "repository's inputs under tests/; each compiled for DirectX in no-pipeline mode and the emitted text compiled again; "
             "the second generation must be accepted, byte-identical and keep every binding slot. C04.reelab: scalar programs of "
             "C01's generator + fixed sources; real first IR -> real emitted text -> real front end again; the model predicts the "
@@ -385,7 +387,8 @@ SPEC = {
             "(1 in 3) spelled exactly like a generated name `<name>_<k>`, k = 0..2, of something declared before and followed by "
             "uses of that entity in the scope of the local (type: declaration, cast / enum variable, enum value; control: call of "
             "the function, assignment of the global), entities spelled like generated names (kept verbatim), and (1 in 10) "
-            "a use that must not resolve; every declaration carries its id as a constant and every use its ordinal, so both emitted "
+            "a use that must not resolve or (1 in 13) a last enum with a value spelled like a namespace of the root, which must be "
+            "refused (`redefinition of ..`, fix fe5dd8d; model: g1:reject); every declaration carries its id as a constant and every use its ordinal, so both emitted "
             "texts say which entity each use refers to; oracle = the emitted text is accepted and the second text is byte-identical; "
             "the harness's own scope simulation of the exported program (rebuilt from the printed text) names the class of a failure "
             "that is an emitted relative path meeting a closer homonym (known findings names:relative-path-captured/..); a use "
@@ -433,8 +436,13 @@ SPEC = {
                   "returns the closer entity, PathsResolveBack is false (the 12 known capture classes, cross-referenced to C15's "
                   "relative-path-resolves-elsewhere). path_lookup_as_modelled pins the bodies of find_identifier, walk_into_scopes, "
                   "scoped_name_to_identifier, the start scope per base, the emitted base and the stage / arm structure of "
-                  "find_identifier_in_scope to the re-extracted Gen.PathLookup; the C04.names stream compares the model's lookups "
-                  "(positive and negative, both generations) with the real compiler. "
+                  "find_identifier_in_scope to the re-extracted Gen.PathLookup, and so the checks of register_enum_value (own "
+                  "enum, then local / global / cbuffer member / enum value / type / function of the containing scope, then - fix "
+                  "fe5dd8d - a namespace of that scope) and the assertion-free promotion loop of end_enum; "
+                  "enum_value_named_like_namespace_refused: for every descriptor prefix, every enum with a value spelled like a "
+                  "namespace / enum scope of the scope it stands in and every continuation the compilation is refused (was: the "
+                  "end_enum panic, a known finding, now a fixed record with its reproducers in the corpus); the C04.names stream "
+                  "compares the model's lookups and refusals (positive and negative, both generations) with the real compiler. "
                   "(6) Kind of constants: emitted_literal_kind_stable - every constant kind except Int32 is read "
                   "back from its spelling with the kind the IR constant had; a template value argument written as a literal is "
                   "recorded (parse_and_evaluate_constant_expression, find_overload_casts: re-extracted by Gen.TemplateConst, "
@@ -486,7 +494,8 @@ SPEC = {
         "trusted for telling a generated name from a kept one when a failure is classified",
         "Model/FixpointNames.lean (scope table, walkInto / findInScope / find, the descriptor machine exec = symbol insertion of "
         "enter_namespace / insert_global / insert_function_in_scope / begin_struct / begin_enum / register_enum_value / register_typedef "
-        "/ insert_variable, exportInstrs = the program the second generation sees) - tied by path_lookup_as_modelled "
+        "/ insert_variable, enumValueRefused = the checks of register_enum_value, exportInstrs = the program the second "
+        "generation sees) - tied by path_lookup_as_modelled "
         "(tools/gens/c04.py PathLookup) and by the C04.names correspondence run; the reading of entity ids out of the emitted "
         "text (harness/src/c04/names.rs scan) is trusted for that run",
     ],
